@@ -68,3 +68,49 @@ func Settle(d time.Duration) {
 		time.Sleep(d)
 	}
 }
+
+// hangSeen is set once a hang verdict was produced in this process; from then on (rapid is shrinking a case that
+// already failed and every candidate that still hangs would cost the full budget again) the budget is 2 s. It is only
+// ever set by a failure, so it cannot turn a passing run into a failing one or vice versa.
+var hangSeen atomic.Bool
+
+// WaitHang waits for ch (closed or receiving) within HangTimeout of *healthy* time: the wait is sliced into 100 ms
+// sleeps and a slice that took much longer (the whole process was frozen or starved) counts as 200 ms at most, so a
+// machine stall cannot be mistaken for a hang. After the first hang verdict of the process the budget drops to 2 s.
+func WaitHang[T any](ch <-chan T) bool {
+	const slice, maxCounted = 100 * time.Millisecond, 200 * time.Millisecond
+	budget := HangTimeout
+	if hangSeen.Load() {
+		budget = 2 * time.Second
+	}
+	var healthy time.Duration
+	timer := time.NewTimer(slice)
+	defer timer.Stop()
+	for healthy < budget {
+		t0 := time.Now()
+		timer.Reset(slice)
+		select {
+		case <-ch:
+			return true
+		case <-timer.C:
+		}
+		healthy += min(time.Since(t0), maxCounted)
+	}
+	select {
+	case <-ch:
+		return true
+	default:
+		hangSeen.Store(true)
+		return false
+	}
+}
+
+// WithinHang runs f in a new goroutine and reports whether it returned within the hang budget of WaitHang.
+func WithinHang(f func()) bool {
+	done := make(chan struct{})
+	go func() {
+		defer close(done)
+		f()
+	}()
+	return WaitHang(done)
+}
